@@ -17,7 +17,19 @@ CheckCentroid(e,g) ==
        IF c[3] = 0 THEN "ok"
        ELSE IF CNear(e.cx, c[1], c[3]) /\ CNear(e.cy, c[2], c[3]) THEN "ok" ELSE "centroid-value"
 
+\* A valid triangle k ulps wide (fam_sliver.go): exact centroid (a + k*ulp/3, y0 + h/3); the event carries the
+\* deviation from (a, y0 + h/3) in ulps of a, and 1e-9 * a is 4503599 ulps of a = 2^e.
+Tol == 4503599
+CheckSliver(e) ==
+  IF e.panic # "" THEN "panic"
+  ELSE IF ~e.areafin THEN "sliver-area-not-finite"
+  ELSE IF e.cempty THEN "centroid-empty"
+  ELSE IF ~e.fin THEN "sliver-centroid-not-finite"
+  ELSE IF Abs(3*e.dxu - e.k) > 3*Tol \/ Abs(e.dyu) > Tol THEN "sliver-centroid-value"
+  ELSE "ok"
+
 Check(e) ==
+  IF "kind" \in DOMAIN e THEN CheckSliver(e) ELSE
   IF e.panic # "" THEN "panic"
   ELSE IF ~PartsValid(e.g) THEN "skip:invalid"
   ELSE LET g == Merge(e.g) IN
